@@ -38,11 +38,10 @@ var (
 )
 
 func GetGlobalTransactionManager() *GlobalTransactionManager {
-	if globalTransactionManager == nil {
-		onceGlobalTransactionManager.Do(func() {
-			globalTransactionManager = &GlobalTransactionManager{}
-		})
-	}
+	// no unsynchronised peek at the pointer first: Once is what publishes it to the other goroutines
+	onceGlobalTransactionManager.Do(func() {
+		globalTransactionManager = &GlobalTransactionManager{}
+	})
 	return globalTransactionManager
 }
 
